@@ -367,7 +367,8 @@ def e1_cases(tier):
                                     'sd': sd, 'nan': nan, 'route': 'stub',
                                     'perms': (
                                         'none' if tier == 'quick' and
-                                        nan != 'one' else
+                                        (nan != 'one' or sd == 'setnone')
+                                        else
                                         'axes' if tier == 'quick' or
                                         nan == 'none' else 'product')})
     # covering subset with really computed fields (tiny grid)
@@ -924,7 +925,7 @@ def run(ctx):
                  'None} x NaN mask {none,datum,row}; misfit through the real '
                  'Simulation.misfit; '
                  + ('all permutations per axis + full reversal for the '
-                    'one-NaN mask' if quick else
+                    'one-NaN mask (std unset / set)' if quick else
                     'all products of axis permutations (NaN masks) / all '
                     'permutations per axis (no NaN)')
                  + '; non-trivial = at least one finite datum and a std',
